@@ -1,7 +1,17 @@
-// M: emission of the correspondence cases (filled in together with coq/Corr/CorrC06.v).
+// M: emission of the correspondence cases for coq/Corr/CorrC06.v.
+//
+// Every wanted input of kind "parse" is run once more through the worker operation "V" (types.Parse with the
+// value decoded into a term of the model's type pv, plus the lexer's token stream through the hook
+// types.VerifTokens and the oracle tables), and written as a `mkCase ...` term. Inputs of kind "parsetype"
+// (Context.ParseType = Parse + Resolve) are covered by the direct check only: the resolver is not modelled.
 package main
 
-import "verifharness/lib"
+import (
+	"fmt"
+	"strconv"
+
+	"verifharness/lib"
+)
 
 type emitter struct {
 	nbad   int
@@ -12,6 +22,9 @@ type emitter struct {
 func newEmitter() *emitter { return &emitter{seen: map[string]bool{}} }
 
 func (e *emitter) want(in input) {
+	if in.Kind != "parse" {
+		return
+	}
 	k := in.Kind + ":" + in.Hex
 	if !e.seen[k] {
 		e.seen[k] = true
@@ -19,4 +32,97 @@ func (e *emitter) want(in input) {
 	}
 }
 
-func (e *emitter) emit(cfg *lib.Config, res *lib.Result, pool *Pool) {}
+const casesPerFile = 1400
+
+// resultTriple maps the observation of types.Parse to the classes of CorrC06.cc_result:
+// 0 value | 1 PARSE_ERROR at line, column | 2 Go runtime fault, raw or wrapped | 3 anything else.
+func resultTriple(o Obs) string {
+	switch o.Class {
+	case "ok":
+		return "(0%nat, 0, 0)"
+	case "reported":
+		if faultMessage(o.Msg) {
+			return "(2%nat, 0, 0)"
+		}
+		if o.Code == "PARSE_ERROR" {
+			return fmt.Sprintf("(1%%nat, %s, %s)", lib.GZ(int64(o.Line)), lib.GZ(int64(o.Col)))
+		}
+		return "(3%nat, 0, 0)"
+	case "runtime":
+		return "(2%nat, 0, 0)"
+	}
+	return "(3%nat, 0, 0)"
+}
+
+// lexEndTriple: 0 the stream ended with an end token | 1 the lexer panicked with an error at line, column |
+// 2 runtime fault | 3 anything else.
+func lexEndTriple(o Obs) string {
+	switch o.Aux["lexclass"] {
+	case "ok":
+		return "(0%nat, 0, 0)"
+	case "error", "reported":
+		l, _ := strconv.Atoi(o.Aux["lexline"])
+		c, _ := strconv.Atoi(o.Aux["lexcol"])
+		return fmt.Sprintf("(1%%nat, %s, %s)", lib.GZ(int64(l)), lib.GZ(int64(c)))
+	case "runtime":
+		return "(2%nat, 0, 0)"
+	}
+	return "(3%nat, 0, 0)"
+}
+
+func caseTerm(in input, o Obs) string {
+	val := "(@None pv)"
+	if o.Class == "ok" && o.Term != "" {
+		val = "(Some " + o.Term + ")"
+	}
+	get := func(k, empty string) string {
+		if v, ok := o.Aux[k]; ok && v != "" {
+			return v
+		}
+		return empty
+	}
+	return fmt.Sprintf("mkCase %s\n     %s %s %s\n     %s\n     %s %s %s",
+		lib.GStr(in.bytes()),
+		get("letters", "(@nil N)"), get("floats", "(@nil (str * option Z))"), get("regexps", "(@nil (str * bool))"),
+		get("tokens", "(@nil (nat * str * Z * Z))"),
+		lexEndTriple(o), resultTriple(o), val)
+}
+
+func (e *emitter) emit(cfg *lib.Config, res *lib.Result, pool *Pool) {
+	if len(e.inputs) == 0 {
+		return
+	}
+	reqs := make([]Req, len(e.inputs))
+	for i, in := range e.inputs {
+		reqs[i] = Req{"V", in.bytes()}
+	}
+	obs := pool.Run(reqs)
+	newFile := func() *lib.CasesFile {
+		return &lib.CasesFile{Imports: []string{"Model.Base", "Model.Lexer", "Model.Parser", "Corr.CorrC06"}, Typ: "c06case",
+			Obligations: map[string]string{"lexer_model": "lex_mismatches cases", "parser_model": "parse_mismatches cases"}}
+	}
+	cf := newFile()
+	nfile := 0
+	flush := func() {
+		if len(cf.Cases) > 0 {
+			res.CorrFiles = append(res.CorrFiles, cf.WriteTo(cfg.Out, fmt.Sprintf("cases_parse_%d", nfile)))
+			nfile++
+			cf = newFile()
+		}
+	}
+	undecoded := 0
+	for i, in := range e.inputs {
+		o := obs[i]
+		if o.Class == "ok" && o.Term == "" {
+			undecoded++
+		}
+		res.Count("corr.class." + o.Class)
+		cf.Add(caseTerm(in, o), in)
+		if len(cf.Cases) >= casesPerFile {
+			flush()
+		}
+	}
+	flush()
+	res.Extra["corr_cases"] = len(e.inputs)
+	res.Extra["corr_values_not_decoded"] = undecoded
+}
